@@ -90,6 +90,15 @@ def _act_of(name, c, args, kwargs):
                     'via': 'connect_circuit'}
         if name == 'into_bench':
             return {'a': 'into_bench'}
+        if name == 'replace_subcircuit':
+            sub = kwargs.get('subcircuit', args[0] if args else None)
+            im = kwargs.get('inputs_mapping', args[1] if len(args) > 1 else None)
+            om = kwargs.get('outputs_mapping', args[2] if len(args) > 2 else None)
+            if len(sub.gates) > MAX_GATES:
+                return None
+            ps = _proj(sub)
+            return {'a': 'replace_subcircuit', 'sub': {k: ps[k] for k in ('g', 'ord', 'i', 'o', 'b')},
+                    'im': [[k, v] for k, v in im.items()], 'om': [[k, v] for k, v in om.items()], 'equiv': False}
     except Exception:
         return None
     return {'a': 'other:' + name}
